@@ -1,6 +1,6 @@
 #!/bin/bash
 # runs every seeded change against its owning check (and the extra checks listed below); writes seeded/MATRIX.txt
-cd /verif
+cd "$(dirname "$0")/.."
 declare -A EXTRA; EXTRA[C02-b]="C10"; EXTRA[C15-b]="C11"; EXTRA[C01-a]="C08"; EXTRA[C03-b]="C13"; EXTRA[C09-b]="C08"
 out=seeded/MATRIX.txt; : > $out.tmp
 for d in seeded/*/; do
